@@ -336,7 +336,7 @@ def _is_cache_drop_loop(st: ast.stmt, X: str, f=None) -> bool:
         from .. import wire
         Ts = {f"type({X})"} | {f"type({norm_text(n.value)})" for n in f.body_nodes() if isinstance(n, ast.Assign) and len(n.targets) == 1 and isinstance(n.targets[0], ast.Name) and n.targets[0].id == X}
         return _mro_cached_names(wire.inline_locals(f, st.iter), X, Ts)
-    if it not in (f"list({X}.__dict__)", f"tuple({X}.__dict__)", f"list({X}.__dict__.keys())", f"{X}.__dict__.copy()"):
+    if it not in (f"list({X}.__dict__)", f"tuple({X}.__dict__)", f"list({X}.__dict__.keys())", f"{X}.__dict__.copy()", f"list(vars({X}))", f"tuple(vars({X}))", f"list(vars({X}).keys())", f"vars({X}).copy()"):
         return False
     if len(st.body) != 1 or not isinstance(st.body[0], ast.If) or st.body[0].orelse:
         return False
@@ -344,7 +344,7 @@ def _is_cache_drop_loop(st: ast.stmt, X: str, f=None) -> bool:
     if test != f"isinstance(getattr(type({X}), {k}, None), cached_property)":
         return False
     body = st.body[0].body
-    return len(body) == 1 and isinstance(body[0], ast.Delete) and norm_text(body[0].targets[0]) == f"{X}.__dict__[{k}]"
+    return len(body) == 1 and isinstance(body[0], ast.Delete) and norm_text(body[0].targets[0]) in (f"{X}.__dict__[{k}]", f"vars({X})[{k}]")
 
 
 def _explicit_drops(f, X: str) -> set:
